@@ -54,7 +54,7 @@ func (v *Verifier) newCtx(key string) (*FnCtx, error) {
 		errGlobals: map[string]bool{}, boxedScalars: map[types.Object]string{}, typeTags: map[string]bool{},
 		closureLits: map[types.Object]*ast.FuncLit{}, inModScan: map[*ast.FuncLit]bool{}, hiddenIdx: map[ast.Node]types.Object{},
 		rangeIdx: map[ast.Node]types.Object{}, rangeLen: map[ast.Node]string{}, callOrds: map[*ast.CallExpr]int{},
-		nocontract: map[string]bool{}, externNoCon: map[string]bool{}, inTrial: map[ast.Node]bool{}, iterExtra: map[ast.Node][]types.Object{}, autoFramed: map[string]bool{}, named: map[string]string{}, inlining: map[string]int{}, gotoTargets: map[string]bool{}, gotoActive: map[string]bool{}}
+		nocontract: map[string]bool{}, externNoCon: map[string]bool{}, inTrial: map[ast.Node]bool{}, iterExtra: map[ast.Node][]types.Object{}, autoFramed: map[string]bool{}, named: map[string]string{}, escaped: map[string]bool{}, inlining: map[string]int{}, gotoTargets: map[string]bool{}, gotoActive: map[string]bool{}}
 	c.nopanic = con.Flags["nopanic"]
 	c.ieee = con.Flags["ieee"]
 	c.declSeq(SStr)
@@ -358,7 +358,7 @@ func (v *Verifier) verifyLemma(ax *Axiom) *FuncResult {
 		entry: map[string]*Val{}, loopOrd: map[ast.Node]int{}, assumes: map[string]bool{}, lits: map[string]string{},
 		inputs: map[string]string{}, usedCons: map[string]bool{}, labels: map[string]int{}, nObl: map[string]int{},
 		errGlobals: map[string]bool{}, boxedScalars: map[types.Object]string{}, typeTags: map[string]bool{},
-		nocontract: map[string]bool{}, externNoCon: map[string]bool{}, inTrial: map[ast.Node]bool{}, iterExtra: map[ast.Node][]types.Object{}, autoFramed: map[string]bool{}, named: map[string]string{}, inlining: map[string]int{}, gotoTargets: map[string]bool{}, gotoActive: map[string]bool{}}
+		nocontract: map[string]bool{}, externNoCon: map[string]bool{}, inTrial: map[ast.Node]bool{}, iterExtra: map[ast.Node][]types.Object{}, autoFramed: map[string]bool{}, named: map[string]string{}, escaped: map[string]bool{}, inlining: map[string]int{}, gotoTargets: map[string]bool{}, gotoActive: map[string]bool{}}
 	if len(c.con.Lemmas) == 0 {
 		c.con.Lemmas = []string{"-none-"}
 	}
@@ -564,6 +564,26 @@ func (c *FnCtx) prelude() string {
 	}
 	if len(eg) > 1 {
 		fmt.Fprintf(&b, "(assert (distinct %s))\n", strings.Join(eg, " "))
+	}
+	// a scalar boxed into an interface is never one of the package-level interface/pointer constants
+	var boxes, globs []string
+	for _, n := range c.decls.order {
+		if strings.HasPrefix(n, "box_") && !strings.Contains(n, "!") && !strings.Contains(c.decls.funs[n], " () ") {
+			boxes = append(boxes, n)
+		} else if strings.HasPrefix(n, "G_") && strings.HasSuffix(c.decls.funs[n], "() Int)") {
+			globs = append(globs, n)
+		}
+	}
+	for _, bx := range boxes {
+		d := c.decls.funs[bx] // (declare-fun box_S (S) Int)
+		i := strings.Index(d, "(")
+		j := strings.Index(d[i+1:], "(")
+		k := strings.Index(d[i+1+j:], ")")
+		argSort := d[i+1+j+1 : i+1+j+k]
+		fmt.Fprintf(&b, "(assert (forall ((x %s)) (! (> (%s x) 0) :pattern ((%s x)))))\n", argSort, bx, bx)
+		for _, g := range globs {
+			fmt.Fprintf(&b, "(assert (forall ((x %s)) (! (not (= (%s x) %s)) :pattern ((%s x)))))\n", argSort, bx, g, bx)
+		}
 	}
 	tt := sortedKeys(c.typeTags)
 	if len(tt) > 1 {
